@@ -97,6 +97,7 @@ func makeUnpackArena() unpackArena {
 }
 
 func (a unpackArena) subst(s string) string {
+	s = strings.ReplaceAll(s, "<DSTREL>", strings.TrimPrefix(a.Dst, "/"))
 	s = strings.ReplaceAll(s, "<DST>", a.Dst)
 	s = strings.ReplaceAll(s, "<P>", a.P)
 	s = strings.ReplaceAll(s, "<A>", a.A)
@@ -233,7 +234,7 @@ func init() { core.Register("unpack", unpackHandler) }
 func lexEscapes(name, target string) bool {
 	const D = "/D/dst"
 	n := strings.TrimPrefix(name, "/")
-	t := strings.ReplaceAll(strings.ReplaceAll(strings.ReplaceAll(target, "<DST>", D), "<P>", "/D"), "<A>", "/")
+	t := strings.ReplaceAll(strings.ReplaceAll(strings.ReplaceAll(strings.ReplaceAll(target, "<DSTREL>", "D/dst"), "<DST>", D), "<P>", "/D"), "<A>", "/")
 	var lex string
 	if filepath.IsAbs(t) {
 		lex = filepath.Clean(t)
@@ -247,15 +248,15 @@ func unpackAlphabet(full bool) []tarx.Entry {
 	var es []tarx.Entry
 	regNames := []string{"a", "a/b", "y", "y/x", "a/up", "/abs", "../dst-evil/x", "../dst-evil/t", "a/../../dst-evil/x", "../secret", ".", "nx/../y/x", "nx/../y", "/../dst-evil/x", "a//b", "./y/./x", "..a", ".../x", "pre/x", "pre", "prelink", "prefile", "predir/x", "pre/dst-evil/x"}
 	dirNames := []string{"a/", "a", "y/", "a/b/", "a/up/", "../dst-evil/", "../dst-evil/x/", ".", "nx/../y/", "nx/../y/x/", "pre/", "pre/sub/", "prelink"}
-	linkNames := []string{"a", "y", "a/up", "a/b", "y/x", "/abs", "../dst-evil/x", "nx/../y/x", "y/", "a/up/.", "y/a/up"}
-	targets := []string{"a", "a/b", "..", ".", "../..", "a/up/..", "a/up/../secret", "../dst-evil", "../dst-evil/t", "../secret", "<DST>/a", "<P>/secret", "../allowed/f"}
+	linkNames := []string{"a", "y", "a/up", "a/b", "y/x", "/abs", "/a/l", "../dst-evil/x", "nx/../y/x", "y/", "a/up/.", "y/a/up"}
+	targets := []string{"a", "a/b", "..", ".", "../..", "../../<DSTREL>/a", "../<DSTREL>/a", "a/up/..", "a/up/../secret", "../dst-evil", "../dst-evil/t", "../secret", "<DST>/a", "<P>/secret", "../allowed/f"}
 	otherKinds := []tarx.Entry{{Name: "../dst-evil/sub/g", Kind: "xglobal"}, {Name: "y/sub/g", Kind: "xglobal"}, {Name: "g", Kind: "xglobal"},
 		{Name: "../dst-evil/ff", Kind: "fifo"}, {Name: "../dst-evil/sub/hl", Kind: "hard", Target: "../secret"}, {Name: "hl", Kind: "hard", Target: "../secret"}}
 	if !full {
 		regNames = []string{"a", "a/b", "y", "y/x", "../dst-evil/x", "../dst-evil/t", "a/../../dst-evil/x", "nx/../y/x", "/../dst-evil/x", "pre/x", "prelink", "prefile"}
 		dirNames = []string{"a/", "y", "../dst-evil/", "a/up/", "pre/"}
-		linkNames = []string{"a", "y", "a/up", "y/a/up"}
-		targets = []string{"a", "..", ".", "../..", "a/up/..", "a/up/../secret", "../dst-evil", "../dst-evil/t", "<P>/secret"}
+		linkNames = []string{"a", "y", "a/up", "y/a/up", "/a/l", "/abs"}
+		targets = []string{"a", "..", ".", "../..", "../../<DSTREL>/a", "../<DSTREL>/a", "a/up/..", "a/up/../secret", "../dst-evil", "../dst-evil/t", "<P>/secret"}
 		otherKinds = otherKinds[:2]
 	}
 	for _, n := range regNames {
@@ -270,6 +271,16 @@ func unpackAlphabet(full bool) []tarx.Entry {
 		}
 	}
 	es = append(es, otherKinds...)
+	// inconsistent headers: the type flag says one thing, the file-type bits of the mode field another
+	incons := []tarx.Entry{
+		{Name: "y", Kind: "link", Target: "a/up/..", Raw: 040711}, {Name: "a/up", Kind: "link", Target: "..", Raw: 040755},
+		{Name: "y", Kind: "reg", Body: "X", Raw: 040644}, {Name: "y/", Kind: "dir", Raw: 0120777}, {Name: "y", Kind: "reg", Body: "X", Raw: 0120644},
+		{Name: "../dst-evil/t", Kind: "link", Target: "a", Raw: 040700},
+	}
+	if !full {
+		incons = incons[:2]
+	}
+	es = append(es, incons...)
 	return es
 }
 
